@@ -18,6 +18,7 @@ import (
 	"strconv"
 	"strings"
 	"sync"
+	"sync/atomic"
 	"testing"
 	"time"
 )
@@ -187,6 +188,8 @@ func Register[C any](name string, run func(C) (Outcome, error)) *Sub[C] {
 	return s
 }
 
+var casesDone, maxDoneMS int64
+
 func (s *Sub[C]) exec(c C) (o Outcome, err error) {
 	done := make(chan struct{})
 	go func() {
@@ -196,12 +199,25 @@ func (s *Sub[C]) exec(c C) (o Outcome, err error) {
 			buf := make([]byte, 1<<22)
 			n := runtime.Stack(buf, true)
 			os.WriteFile(filepath.Join(r.out, "hang-"+s.name+".txt"), buf[:n], 0o644)
-			fmt.Fprintf(os.Stderr, "\nVERIF-HANG sub=%s after %s\n", s.name, r.watchdog)
+			// done / maxdone_ms: how many cases this process completed before and how long the
+			// slowest of them took - the driver's yardstick for telling a livelock from a slow case
+			fmt.Fprintf(os.Stderr, "\nVERIF-HANG sub=%s after %s done=%d maxdone_ms=%d\n", s.name, r.watchdog, atomic.LoadInt64(&casesDone), atomic.LoadInt64(&maxDoneMS))
 			Flush()
 			os.Exit(3)
 		}
 	}()
 	defer close(done)
+	t0 := time.Now()
+	defer func() {
+		ms := time.Since(t0).Milliseconds()
+		atomic.AddInt64(&casesDone, 1)
+		for {
+			old := atomic.LoadInt64(&maxDoneMS)
+			if ms <= old || atomic.CompareAndSwapInt64(&maxDoneMS, old, ms) {
+				break
+			}
+		}
+	}()
 	defer func() {
 		if p := recover(); p != nil {
 			err = fmt.Errorf("panic: %v\n%s", p, trimStack(debug.Stack()))
